@@ -440,6 +440,49 @@ pub fn retarget_changes(rng: &mut Rng, plan: &mut Plan) {
     plan.changes.sort_by_key(|c| c.at_ms);
 }
 
+/// A slow link or a slow server: every byte takes seconds (one direction or both). Virtual time
+/// is free; a client with a deadline of its own on some exchange ("the reply to `noidle` never
+/// takes more than a second") is met where that deadline is wrong.
+pub fn slow_link(rng: &mut Rng, plan: &mut Plan) {
+    // small plans only: hundreds of round trips of ten seconds each would outlast the harness's
+    // own limits (one hour of virtual time per wait) without exercising anything new
+    let ops: usize = plan.callers.iter().flatten().map(|o| o.ids().len().max(1)).sum();
+    let slow_replies = plan.replies.values().any(|s| s.delay_ms > 1000);
+    if ops > 12 || plan.changes.len() > 12 || slow_replies {
+        return;
+    }
+    // (the round trip stays well below the 60 s of silence that define quiescence)
+    plan.net.s2c_latency_ms = *rng.pick(&[1_100u32, 2_500, 5_500, 10_500]);
+    plan.net.c2s_latency_ms = vec![*rng.pick(&[0u32, 0, 600, 1_100, 5_000])];
+    plan.net.s2c_delay_ms = vec![0];
+}
+
+/// One reply of the plan becomes a big listing: hundreds to thousands of short lines in one
+/// response (what `playlistinfo` or `listall` return), delivered in coarse segments so that
+/// many complete lines are buffered at once.
+pub fn add_big_listing(rng: &mut Rng, plan: &mut Plan) -> bool {
+    let ids: Vec<u64> = plan
+        .replies
+        .iter()
+        .filter(|(_, s)| s.fail.is_none())
+        .map(|(id, _)| *id)
+        .collect();
+    if ids.is_empty() {
+        return false;
+    }
+    let id = *rng.pick(&ids);
+    let shape = plan.replies.get_mut(&id).unwrap();
+    shape.fields = *rng.pick(&[513u32, 600, 1025, 2049, 4000]);
+    shape.value_len = rng.below(9) as u32;
+    shape.distinct_keys = rng.chance(1, 3);
+    plan.net.s2c_mode = rng
+        .pick(&[SegMode::Whole, SegMode::Sizes(vec![4096]), SegMode::Sizes(vec![16384]), SegMode::Sizes(vec![1000, 5000])])
+        .clone();
+    plan.net.s2c_delay_ms = vec![0];
+    plan.net.read_pending = vec![0];
+    true
+}
+
 /// An application whose event loop has a ticker of its own (see `Consumer::Ticking`).
 pub fn ticking_consumer(rng: &mut Rng, plan: &Plan) -> Consumer {
     Consumer::Ticking {
